@@ -2,36 +2,22 @@ package main
 
 import (
 	"fmt"
-	"os"
-	"strconv"
 
 	"github.com/frankkopp/FrankyGo/internal/config"
+	"github.com/frankkopp/FrankyGo/internal/movegen"
 	"github.com/frankkopp/FrankyGo/internal/position"
-	"github.com/frankkopp/FrankyGo/internal/search"
 )
 
 func main() {
 	config.LogLevel = 0
-	config.SearchLogLevel = 0
-	config.Settings.Search.UseBook = false
-	config.Settings.Search.TTSize = 4
-	s := search.NewSearch()
-	for i := 1; i+1 < len(os.Args); i += 2 {
-		fen := os.Args[i]
-		d, _ := strconv.Atoi(os.Args[i+1])
-		p, err := position.NewPositionFen(fen)
-		if err != nil {
-			fmt.Println(err)
-			return
-		}
-		if i == 1 {
-			config.Settings.Search.UseRazoring = false
-		} else {
-			config.Settings.Search.UseRazoring = true
-		}
-		s.StartSearch(*p, search.Limits{Depth: d, Nodes: 150000})
-		s.WaitWhileSearching()
-		r := s.LastSearchResult()
-		fmt.Println(r.String())
+	p := position.NewPosition()
+	mg := movegen.NewMoveGen()
+	cyc := []string{"g1f3", "g8f6", "f3g1", "f6g8"}
+	for n := 0; n < 511; n++ {
+		p.DoMove(mg.GetMoveFromUci(p, cyc[n%4]))
 	}
+	fmt.Println("before", p.LastMove().StringUci(), p.CheckRepetitions(2), p.StringFen())
+	p.DoNullMove()
+	p.UndoNullMove()
+	fmt.Println("after ", p.LastMove().StringUci(), p.CheckRepetitions(2), p.StringFen())
 }
